@@ -10,7 +10,8 @@
    exact per-rewrite correspondence (L1) and trace comparison of real before/after IR on the Coq
    machine (L2); their preservation theorems are not proved in this revision. *)
 From Snax Require Import Base.Prelude Model.AccIR Model.AccSem Model.AccInfer Model.AccDedup
-  Proofs.AccSemProofs Proofs.AccInferProofs Proofs.AccDedupProofs.
+  Model.AccWeave
+  Proofs.AccSemProofs Proofs.AccInferProofs Proofs.AccDedupProofs Proofs.AccRenameProofs.
 
 (* same launch/await/call sequence and, at each launch, equal registers on every field the
    original run has written since the last clobber (trace_sim_b); moreover the final register
@@ -22,6 +23,27 @@ Theorem C01_simplify_preserves_partial :
   trace_sim_b (run orc p args) (run orc (simp_prog sel T p) args) = true.
 Proof. intros T sel p Hwf Hnd orc args. exact (simp_preserves T orc sel p args Hwf Hnd). Qed.
 Print Assumptions C01_simplify_preserves_partial.
+
+(* the rewrite exactly as the pass performs it on the setup with out-state [tg]: the pairs are dropped
+   and the setup is replaced by a new op whose out-state [o'] replaces [tg] everywhere.  [tg] and [o']
+   are state values: the machine never binds them (decidable side conditions, evaluated together
+   with `after = ren_prog ...` on every recorded rewrite: simplify_cert). *)
+Theorem C01_simplify_rule_partial :
+  forall (T : val -> astate) (tg o' : val) (p : prog),
+  wf_prog T p = true -> block_fields_nodup (p_body p) = true ->
+  mem_nat tg (prog_binds (simp_prog (Nat.eqb tg) T p)) = false ->
+  mem_nat o' (prog_binds (simp_prog (Nat.eqb tg) T p)) = false ->
+  forall (orc : oracle) (args : list Z),
+  trace_sim_b (run orc p args) (run orc (ren_prog (rn tg o') (simp_prog (Nat.eqb tg) T p)) args) = true.
+Proof. intros T tg o' p Hwf Hnd Hx Hy orc args. exact (simplify_rule_preserves T tg o' p orc args Hwf Hnd Hx Hy). Qed.
+Print Assumptions C01_simplify_rule_partial.
+
+(* renaming a never-bound (state) value everywhere leaves every run unchanged *)
+Theorem C01_state_renaming_invisible :
+  forall (x y : val) (p : prog), ~ In x (prog_binds p) /\ ~ In y (prog_binds p) ->
+  forall (orc : oracle) (args : list Z), run orc (ren_prog (rn x y) p) args = run orc p args.
+Proof. intros x y p H orc args. exact (ren_prog_run orc x y p args H). Qed.
+Print Assumptions C01_state_renaming_invisible.
 
 (* any finite sequence of applications, each with its own selection of setups: the certificate
    survives every application (simp_wf), and the register-level trace relation is transitive *)
